@@ -226,6 +226,96 @@ def gen_mapping(rng):
     return {"kind": "mapping", "style": kind, "adds": adds, "queries": queries}
 
 
+def gen_createdeps(rng):
+    """A small product graph on a real stack (p0 requires a random subset of the later products, some optionally, some
+    optional ones missing) for Distrib._createDeps: the dependency manifest must be in install order."""
+    n = rng.randint(2, 6)
+    names = ["p%d" % i for i in range(n)]
+    prods = []
+    for i in range(n):
+        reqs = []
+        for j in range(i + 1, n):
+            if rng.random() < 0.5:
+                reqs.append([names[j], rng.random() < 0.25])
+        if rng.random() < 0.2:
+            reqs.append(["ghost%d" % i, True])             # an optional product that is not installed
+        if i == 0 and not reqs and n > 1:
+            reqs.append([names[1], False])
+        rng.shuffle(reqs)
+        prods.append({"name": names[i], "requires": reqs})
+    return {"kind": "createdeps", "products": prods}
+
+
+def _createdeps_child(c):
+    import importlib
+    root = common.scratch("c18cd")
+    try:
+        stacks, _ = common.mkstacks(root, default_product=True)
+        E = common.new_eups()
+        for p_ in c["products"]:
+            table = "".join("%s(%s)\n" % ("setupOptional" if opt else "setupRequired", nm) for nm, opt in p_["requires"])
+            d = common.mkprod(stacks[0], p_["name"], "1", table)
+            E.declare(p_["name"], "1", d, tag="current")
+        E = common.new_eups()
+        seen = {}
+        real = E.getDependentProducts
+
+        def recording(*a, **kw):
+            r = real(*a, **kw)
+            seen["deps"] = [[x[0].name, x[0].version, bool(x[1]), x[2]] for x in r]
+            return r
+        E.getDependentProducts = recording
+        D = importlib.import_module("eups.distrib.Distrib")
+        dd = D.DefaultDistrib(E, None, verbosity=-1, log=open(os.devnull, "w"))
+        try:
+            man = dd._createDeps(c["products"][0]["name"], "1", recursive=True)
+            out = {"order": [[p_.product, p_.version, bool(p_.isOpt)] for p_ in man.getProducts()]}
+        except Exception as e:  # noqa
+            out = {"error": type(e).__name__}
+        deps = []
+        for nm, ver, opt, depth in seen.get("deps", []):
+            f = E.findProductFromVRO(nm, ver)[0]
+            deps.append({"name": nm, "version": ver or "", "optional": opt, "depth": depth, "found": f.version if f else None})
+        out["deps"] = deps
+        return out
+    finally:
+        common.rmtree(root)
+
+
+def impl_createdeps(c):
+    r = common.in_child(_createdeps_child, c)
+    return r[1] if r[0] == "ok" else {"error": "CHILD:" + str(r[1:3]), "deps": []}
+
+
+def oracle_createdeps(c, io_):
+    """Install order, from the graph alone: the top product is last, every installed product of the closure is listed once,
+    and every product comes after the (installed) products it requires."""
+    if "order" not in io_:
+        yield ("createdeps_runs", None, "_createDeps raised %s" % io_.get("error"))
+        return
+    have = {p_["name"]: p_ for p_ in c["products"]}
+    order = [x[0] for x in io_["order"]]
+    top = c["products"][0]["name"]
+    if not order or order[-1] != top:
+        yield ("manifest_install_order", None, "the product being packaged (%s) is not last: %r" % (top, order))
+    closure, todo = [], [top]
+    while todo:
+        x = todo.pop()
+        if x in closure or x not in have:
+            continue
+        closure.append(x)
+        todo += [nm for nm, _ in have[x]["requires"]]
+    if sorted(order) != sorted(closure):
+        yield ("manifest_lists_the_closure", None, "listed %r, the installed closure is %r" % (sorted(order), sorted(closure)))
+        return
+    pos = {x: i for i, x in enumerate(order)}
+    for x in closure:
+        for nm, _ in have[x]["requires"]:
+            if nm in pos and pos[nm] > pos[x]:
+                yield ("manifest_install_order", None, "%s requires %s but is listed before it: %r" % (x, nm, order))
+                return
+
+
 def gen_srvfile(rng):
     """Files on a server (tables/<name>.table with distinct contents) and a history of getFile requests to ONE
     DistribServer object, each with a destination file: a fresh one (what getFile generates by default) or one of two scratch
@@ -1017,7 +1107,7 @@ def impl_remap(c, E=None):
 
 
 def impl_case(c):
-    return {"manifest": impl_manifest, "taglist": impl_taglist, "mapping": impl_mapping, "mapseq": impl_mapseq, "tagseq": impl_tagseq, "manseq": impl_manseq, "srvfile": impl_srvfile, "remap": impl_remap,
+    return {"manifest": impl_manifest, "taglist": impl_taglist, "mapping": impl_mapping, "mapseq": impl_mapseq, "tagseq": impl_tagseq, "manseq": impl_manseq, "srvfile": impl_srvfile, "createdeps": impl_createdeps, "remap": impl_remap,
             "server": impl_server}[c["kind"]](c)
 
 
@@ -1291,7 +1381,7 @@ def oracle_server(c, io_):
 
 
 ORACLES = {"manifest": oracle_manifest, "taglist": oracle_taglist, "mapping": oracle_mapping, "remap": oracle_remap,
-           "server": oracle_server, "mapseq": oracle_mapseq, "tagseq": oracle_tagseq, "manseq": oracle_manseq, "srvfile": oracle_srvfile}
+           "server": oracle_server, "mapseq": oracle_mapseq, "tagseq": oracle_tagseq, "manseq": oracle_manseq, "srvfile": oracle_srvfile, "createdeps": oracle_createdeps}
 
 
 # ---- model -----------------------------------------------------------------------------------------
@@ -1316,6 +1406,8 @@ def model_requests(c, io_):
         return [{"m": "c18", "op": "mapping", "adds": c["adds"], "queries": c["queries"]}]
     if k == "mapseq":
         return [{"m": "c18", "op": "mapseq", "ops": c["ops"]}]
+    if k == "createdeps":
+        return [{"m": "c18", "op": "createdeps", "top": c["products"][0]["name"], "topVersion": "1", "deps": io_.get("deps", [])}]
     if k == "srvfile":
         return [{"m": "c18", "op": "srvfile", "server": c["server"], "reqs": c["reqs"], "pinned": False}]
     if k == "manseq":
@@ -1344,6 +1436,8 @@ def model_output(c, io_, answers):
         return out
     if k in ("mapping", "mapseq", "tagseq", "manseq", "srvfile"):
         return answers[0]
+    if k == "createdeps":
+        return dict(answers[0], deps=io_.get("deps", []))
     if k == "server":
         return {"answers": answers[0]["answers"]}
     a = answers[0]
@@ -1369,6 +1463,10 @@ def impl_view(c, io_):
 
 NW = 4
 
+MIRRORS = [("python/eups/distrib/server.py", "*"), ("python/eups/distrib/Distrib.py", "Distrib.writeManifest"),
+           ("python/eups/distrib/Distrib.py", "DefaultDistrib.writeTaggedRelease"),
+           ("python/eups/distrib/Distrib.py", "Distrib.createDependencies"), ("python/eups/distrib/Distrib.py", "Distrib._createDeps")]
+
 
 def nontrivial(c, io_):
     k = c["kind"]
@@ -1385,6 +1483,8 @@ def nontrivial(c, io_):
         return False
     if k == "mapping":
         return any(list(r) != q[:2] for q, r in zip(c["queries"], io_.get("applied", [])))
+    if k == "createdeps":
+        return len(io_.get("order", [])) > 1
     if k == "srvfile":
         return len(c["reqs"]) > 1
     if k == "manseq":
@@ -1429,6 +1529,9 @@ def evaluate(ctx, cases):
                 ctx.hist("taglist:odd-tag")
             if "readTag" in c:
                 ctx.hist("taglist:reader-expects-another-tag")
+        elif kind == "createdeps":
+            if len(io_.get("order", [])) >= 3:
+                ctx.hist("createdeps:three-or-more-products-listed")
         elif kind == "srvfile":
             seen = {}
             for path, dest in c["reqs"]:
@@ -1508,7 +1611,7 @@ def corpus_cases():
 
 
 GEN = {"manifest": gen_manifest, "taglist": gen_taglist, "mapping": gen_mapping, "remap": gen_remap, "server": gen_server,
-       "mapseq": gen_mapseq, "tagseq": gen_tagseq, "manseq": gen_manseq, "srvfile": gen_srvfile}
+       "mapseq": gen_mapseq, "tagseq": gen_tagseq, "manseq": gen_manseq, "srvfile": gen_srvfile, "createdeps": gen_createdeps}
 
 
 def enum_mappings():
@@ -1528,9 +1631,9 @@ def enum_mappings():
     return out
 
 
-QUICK = [("manifest", 2400, 600), ("taglist", 1200, 400), ("mapping", 1500, 500), ("mapseq", 1200, 400), ("tagseq", 1000, 500), ("manseq", 800, 400), ("srvfile", 800, 400), ("remap", 1600, 400),
+QUICK = [("manifest", 2400, 600), ("taglist", 1200, 400), ("mapping", 1500, 500), ("mapseq", 1200, 400), ("tagseq", 1000, 500), ("manseq", 800, 400), ("srvfile", 800, 400), ("createdeps", 48, 16), ("remap", 1600, 400),
          ("server", 1000, 500)]
-THOROUGH = [("manifest", 60000, 600), ("taglist", 30000, 600), ("mapping", 40000, 600), ("mapseq", 30000, 600), ("tagseq", 30000, 600), ("manseq", 30000, 600), ("srvfile", 20000, 600),
+THOROUGH = [("manifest", 60000, 600), ("taglist", 30000, 600), ("mapping", 40000, 600), ("mapseq", 30000, 600), ("tagseq", 30000, 600), ("manseq", 30000, 600), ("srvfile", 20000, 600), ("createdeps", 2000, 48),
             ("remap", 40000, 600), ("server", 25000, 600)]
 
 
@@ -1564,6 +1667,9 @@ def check_floors(ctx):
         raise common.InfraError("degenerate distribution: manifest sequences: %d reorderings, %d reads into the live manifest, %d "
                                 "getDependency hits" % (h.get("manseq:order-changed", 0), h.get("manseq:read-into-live-manifest", 0),
                                                         h.get("manseq:getdep-found", 0)))
+    if h.get("createdeps:three-or-more-products-listed", 0) < 10:
+        raise common.InfraError("degenerate distribution: %d dependency manifests with three or more products"
+                                % h.get("createdeps:three-or-more-products-listed", 0))
     if h.get("srvfile:destination-reused-for-another-source", 0) < 100:
         raise common.InfraError("degenerate distribution: %d server-file histories reuse a destination for another source"
                                 % h.get("srvfile:destination-reused-for-another-source", 0))
